@@ -10,7 +10,8 @@ for d in "$VERIF_ROOT"/seeded/${1:-*}/; do
   id=$(basename "$d"); [ -f "$d/patch.diff" ] || continue
   props=$(python3 -c "import json;print(json.load(open('$d/meta.json')).get('checks_run',''))" 2>/dev/null)
   [ -z "$props" ] && props=${id%%-*}
-  git -C /repo apply "$d/patch.diff" 2>/dev/null || { echo -e "$id\tNO-APPLY" | tee -a "$out"; continue; }
+  exec 7>"$VERIF_ROOT/.work/repo.lock"; flock -x 7; export VERIF_REPO_LOCK_HELD=1
+  git -C /repo apply "$d/patch.diff" 2>/dev/null || { echo -e "$id\tNO-APPLY" | tee -a "$out"; flock -u 7; unset VERIF_REPO_LOCK_HELD; continue; }
   caught=""; kinds=""
   for p in $props; do
     "$VERIF_ROOT/bin/check" "$p" quick > "$VERIF_ROOT/.work/seed-$id-$p.txt" 2>&1; ec=$?
@@ -18,6 +19,7 @@ for d in "$VERIF_ROOT"/seeded/${1:-*}/; do
     kinds="$kinds$(grep -A1 "^VIOLATION" "$VERIF_ROOT/.work/seed-$id-$p.txt" | grep kind= | sed 's/ deviations=\([0-9]*\)/@\1/; s/^ *kind=//; s/ scenario=/ in /' | sort -u | head -2 | tr '\n' ';')"
   done
   git -C /repo checkout -q -- .
+  flock -u 7; unset VERIF_REPO_LOCK_HELD
   r="MISSED"; [ -n "$caught" ] && r="CAUGHT"
   [ "$r" = MISSED ] && [ -f "$d/STATUS.md" ] && r="NEUTRALISED (no longer breaks the property, see STATUS.md)"
   echo -e "$id\t$r\t$(echo $caught)\t$kinds" | tee -a "$out"
